@@ -7,6 +7,7 @@
 //   type e|i ; rmpriv 0 none 1 all 2 replace ; ATTRS = (origin ASPATH nh med lp orig CL (unk (type flags)...))
 //   ASPATH = - | ((segtype as...)...)   CL = - | (id...)   med/lp/orig = - | value
 // Out:  ok COPY STORED   with the same ATTRS shape
+// Line: own <local AS> <allow-own-as> <confed id> <confed enabled 0|1> ASPATH   (hasOwnASLoop)   Out: ok 0|1
 package main
 
 import (
@@ -23,6 +24,7 @@ import (
 	"github.com/osrg/gobgp/v4/internal/verif/sx"
 	"github.com/osrg/gobgp/v4/pkg/config/oc"
 	"github.com/osrg/gobgp/v4/pkg/packet/bgp"
+	"github.com/osrg/gobgp/v4/pkg/server"
 )
 
 func ip(n uint64) netip.Addr {
@@ -119,6 +121,18 @@ func run(line string) (out string) {
 		}
 	}()
 	ns, err := sx.Parse(line)
+	if err == nil && len(ns) == 6 && ns[0].Atom == "own" {
+		// own <local AS> <allow-own-as> <confederation identifier> <confederation enabled 0|1> ((segtype as...)...)
+		var params []bgp.AsPathParamInterface
+		for _, s := range ns[5].List {
+			var as []uint32
+			for _, a := range s.List[1:] {
+				as = append(as, uint32(a.Uint()))
+			}
+			params = append(params, bgp.NewAs4PathParam(uint8(s.At(0).Uint()), as))
+		}
+		return "ok " + sx.B(server.VerifHasOwnASLoop(uint32(ns[1].Uint()), int(ns[2].Uint()), bgp.NewPathAttributeAsPath(params), uint32(ns[3].Uint()), ns[4].Atom == "1")).String()
+	}
 	if err != nil || len(ns) != 4 || ns[0].Atom != "upa" {
 		return "err parse"
 	}
